@@ -207,6 +207,7 @@ def explore_config(prop, cfg, judge, invariant=None, max_executions=300000, prun
             t.flags[k] += st[k]
     if st['capped']:
         t.flags['execution_cap_hit'] += 1
+        t.note('execution/time cap hit in %s %s %r (%d states)' % (cfg['fn'], cfg['tag'], {k: v for k, v in cfg.get('params', {}).items() if k not in ('B', 'D')}, st['states']))
     return t
 
 
